@@ -3,8 +3,7 @@ import SkfemVerif.Drv.Base
 import SkfemVerif.Model.Topology
 import SkfemVerif.Model.Dofs
 import SkfemVerif.Model.Assembly
-import SkfemVerif.Drv.BC
-import SkfemVerif.Drv.Quad
+import SkfemVerif.Drv.All
 /-
 Line-protocol driver: one JSON object per input line, one JSON value per output line.
 Imports only the (Mathlib-free) models, so it can be linked as an executable.
@@ -100,7 +99,7 @@ def opThreadChunks (j : Json) : Option Json := do
   pure <| Json.arr ((threadChunks nu nv n).map (fun ch =>
     Json.arr (ch.map (fun p => natList [p.1, p.2])).toArray)).toArray
 
-def extraOps : List (String × (Json → Option Json)) := bcOps ++ quadOps
+def extraOps : List (String × (Json → Option Json)) := allOps
 
 def dispatch (j : Json) : Json :=
   match field? j "op" with
@@ -134,4 +133,3 @@ def main : IO Unit := do
   let hout ← IO.getStdout
   Drv.loop hin hout
   hout.flush
--- touch
